@@ -363,7 +363,8 @@ Section Run.
   Definition PInv (w : world) (pre : list wmsg) : Prop :=
     let sg := sp_run cf pre in
     match w_ph w with
-    | PhFailed | PhPanic => w_out w = []
+    | PhFailed => w_out w = [] /\ w_reps w = ncalls w /\ ncalls w <= creation (c_dest cf)
+    | PhPanic => False
     | PhStart => w_log w = [] /\ w_out w = []
     | PhAddN c qr => c_dest cf = DWell /\ c = 1 /\ ncalls w = 1 /\ w_out w = [] /\ qrep 1 (w_reps w) qr
     | PhOwner c j qn fut =>
@@ -391,8 +392,9 @@ Section Run.
         ss_end st = sp_owner sg
     end.
 
-  Definition WInv (w : world) : Prop :=
-    exists pre, Base (w_todo w) (w_seq w) (w_reps w) (ncalls w) pre /\ PInv w pre.
+  Definition CInv1 (w : world) (pre : list wmsg) : Prop :=
+    Base (w_todo w) (w_seq w) (w_reps w) (ncalls w) pre /\ PInv w pre.
+  Definition WInv (w : world) : Prop := exists pre, CInv1 w pre.
 
   (* ---- delivery of a signal to the queue of the NameOwnerChanged receiver *)
   Lemma noc_push : forall n s q,
@@ -435,8 +437,8 @@ Section Run.
     let st' := ss_deliver (sig_rule cf) (n + 1) s st in
     ss_ok (n + 1) st' /\
     (match c_dest cf with DWell => ss_qn st' <> None | DUnique _ => ss_qn st' = None end) /\
-    map fst (ss_pend st') =
-      map fst (ss_pend st) ++ (if wanted cf s && (start <? n + 1) && from_owner sg s then [n + 1] else []) /\
+    ss_pend st' =
+      ss_pend st ++ (if wanted cf s && (start <? n + 1) && from_owner sg s then [(n + 1, s)] else []) /\
     ss_end st' = sp_owner (sp_step cf sg (WSig s)).
   Proof.
     intros st n s sg start (Hwf & Hso & Hle) Hstart Hq He Hnd Hnew Hu Hsnd Hnoc st'.
@@ -470,7 +472,7 @@ Section Run.
       { unfold from_owner. destruct (sp_owner sg) as [o|]; [reflexivity|].
         destruct (s_sender s); [reflexivity|contradiction]. }
       rewrite Hfo. split.
-      + rewrite map_app. destruct (opt_eqb (s_sender s) (sp_owner sg)); reflexivity.
+      + destruct (opt_eqb (s_sender s) (sp_owner sg)); reflexivity.
       + (* the owner is untouched: the signal is on the proxy's path, not the driver's *)
         unfold sp_step. destruct (c_dest cf); [reflexivity|].
         destruct (driver_noc s) as [new|] eqn:Ed; [|reflexivity].
@@ -534,12 +536,13 @@ Section Run.
   Lemma tick_sig_inv : forall w pre s rest,
     w_todo w = WSig s :: rest ->
     Base (w_todo w) (w_seq w) (w_reps w) (ncalls w) pre -> PInv w pre ->
-    WInv {| w_todo := rest; w_seq := w_seq w + 1; w_reps := w_reps w; w_log := w_log w;
-            w_ph := deliver_sig cf (w_seq w + 1) s (w_ph w); w_out := w_out w; w_start := w_start w;
-            w_lost := w_lost w |}.
+    let w' := {| w_todo := rest; w_seq := w_seq w + 1; w_reps := w_reps w; w_log := w_log w;
+                 w_ph := deliver_sig cf (w_seq w + 1) s (w_ph w); w_out := w_out w; w_start := w_start w;
+                 w_lost := w_lost w |} in
+    Base rest (w_seq w + 1) (w_reps w) (ncalls w) (pre ++ [WSig s]) /\ PInv w' (pre ++ [WSig s]).
   Proof.
-    intros w pre s rest Et B P. rewrite Et in B.
-    exists (pre ++ [WSig s]). split; [apply Base_sig; exact B|].
+    intros w pre s rest Et B P w'. subst w'. rewrite Et in B.
+    split; [apply Base_sig; exact B|].
     pose proof (base_new_ok _ _ _ _ _ _ B) as Hnew.
     destruct (in_hist _ _ _ _ _ s rest B eq_refl) as [Hsnd Hnoc].
     unfold PInv in *. cbn [w_ph w_out w_log w_seq w_reps w_start ncalls].
@@ -601,8 +604,9 @@ Section Run.
         as (Hok' & Hqn' & Hp' & He').
       split; [exact Hr|]. split; [exact Hn|]. split; [exact Hok'|]. split; [lia|]. split; [exact Hqn'|].
       split.
-      + rewrite Hp', app_assoc, Hy, spec_pre_snoc.
-        rewrite (b_len _ _ _ _ _ B). replace (1 + w_seq w) with (w_seq w + 1) by lia. reflexivity.
+      + rewrite Hp', map_app, app_assoc, Hy, spec_pre_snoc.
+        rewrite (b_len _ _ _ _ _ B). replace (1 + w_seq w) with (w_seq w + 1) by lia.
+        destruct (wanted cf s && (w_start w <? w_seq w + 1) && from_owner (sp_run cf pre) s); reflexivity.
       + rewrite sp_run_snoc. exact He'.
   Qed.
 
@@ -626,12 +630,13 @@ Section Run.
   Lemma tick_rep_inv : forall w pre p rest,
     w_todo w = WRep p :: rest -> w_reps w < ncalls w ->
     Base (w_todo w) (w_seq w) (w_reps w) (ncalls w) pre -> PInv w pre ->
-    WInv {| w_todo := rest; w_seq := w_seq w + 1; w_reps := w_reps w + 1; w_log := w_log w;
-            w_ph := deliver_rep (w_seq w + 1) (w_reps w + 1) p (w_ph w); w_out := w_out w;
-            w_start := w_start w; w_lost := w_lost w |}.
+    let w' := {| w_todo := rest; w_seq := w_seq w + 1; w_reps := w_reps w + 1; w_log := w_log w;
+                 w_ph := deliver_rep (w_seq w + 1) (w_reps w + 1) p (w_ph w); w_out := w_out w;
+                 w_start := w_start w; w_lost := w_lost w |} in
+    Base rest (w_seq w + 1) (w_reps w + 1) (ncalls w) (pre ++ [WRep p]) /\ PInv w' (pre ++ [WRep p]).
   Proof.
-    intros w pre p rest Et Hlt B P. rewrite Et in B.
-    exists (pre ++ [WRep p]). split; [apply Base_rep; assumption|].
+    intros w pre p rest Et Hlt B P w'. subst w'. rewrite Et in B.
+    split; [apply Base_rep; assumption|].
     unfold PInv in *. cbn [w_ph w_out w_log w_seq w_reps w_start].
     change (ncalls {| w_todo := rest; w_seq := w_seq w + 1; w_reps := w_reps w + 1; w_log := w_log w;
                       w_ph := deliver_rep (w_seq w + 1) (w_reps w + 1) p (w_ph w); w_out := w_out w;
@@ -668,16 +673,20 @@ Section Run.
         apply qrep_push_mine; [lia|exact Hr].
     - (* PhReady: every call has been answered *)
       destruct P as (Hr & _). lia.
+    - (* PhFailed: likewise *)
+      destruct P as (_ & Hr & _). lia.
   Qed.
 
   Lemma tick_inv : forall w w', WInv w -> tick cf w = Some w' -> WInv w'.
   Proof.
     intros w w' (pre & B & P) H. unfold tick in H.
     destruct (w_todo w) as [|[s|p] rest] eqn:Et.
-    - inversion H; subst. exists pre. rewrite Et. split; assumption.
-    - inversion H; subst. rewrite <- Et in B. eapply tick_sig_inv; eassumption.
+    - inversion H; subst. exists pre. unfold CInv1. rewrite Et. split; assumption.
+    - inversion H; subst. rewrite <- Et in B. exists (pre ++ [WSig s]).
+      exact (tick_sig_inv w pre s rest Et B P).
     - destruct (w_reps w <? ncalls w) eqn:E; [|discriminate]. apply N.ltb_lt in E.
-      inversion H; subst. rewrite <- Et in B. eapply tick_rep_inv; eassumption.
+      inversion H; subst. rewrite <- Et in B. exists (pre ++ [WRep p]).
+      exact (tick_rep_inv w pre p rest Et E B P).
   Qed.
 
   (* ---- the join of SignalStream::new on the four shapes its inputs can have *)
@@ -723,12 +732,12 @@ Section Run.
     not_driver src = true -> qn_good q -> sorted q -> all_le (w_seq w) q ->
     ((w_reps w = 1 /\ snd (cacc pre) = Some (nend src q)) \/
      (w_reps w = 2 /\ sp_owner (sp_run cf pre) = nend src q)) ->
-    WInv (resolved_world w src q lost).
+    CInv1 (resolved_world w src q lost) pre.
   Proof.
     intros w pre src q lost B Hn Hd Ho Hnd Hg Hso Hle Hcase.
     assert (Hn' : ncalls (resolved_world w src q lost) = 3).
     { unfold resolved_world, call, ncalls in *. cbn [w_log length]. lia. }
-    exists pre. split.
+    split.
     - rewrite Hn'. unfold resolved_world, call. cbn [w_todo w_seq w_reps].
       eapply Base_calls; [|exact B]. lia.
     - unfold PInv. rewrite Hn'. unfold resolved_world, call. cbn [w_ph w_out w_reps w_seq]. rewrite Hd, Hn.
@@ -739,34 +748,39 @@ Section Run.
       destruct Hcase as [[E H1]|[E H2]]; [left|right]; split; auto; lia.
   Qed.
 
+  Lemma failed_pinv : forall w pre,
+    Base (w_todo w) (w_seq w) (w_reps w) (ncalls w) pre -> w_out w = [] -> w_reps w = ncalls w ->
+    ncalls w <= creation (c_dest cf) -> CInv1 (set_ph w PhFailed) pre.
+  Proof. intros w pre B Ho Hr Hn. split; [exact B|]. unfold PInv. cbn [w_ph set_ph]. repeat split; assumption. Qed.
+
   (* ---- the task that creates the stream makes a step *)
-  Lemma client_inv : forall w, WInv w -> w_lost (client_step cf w) = false -> WInv (client_step cf w).
+  Lemma client_pinv : forall w pre, CInv1 w pre -> w_lost (client_step cf w) = false -> CInv1 (client_step cf w) pre.
   Proof.
-    intros w (pre & B & P) Hlost. unfold client_step in *. unfold PInv in P.
+    intros w pre (B & P) Hlost. unfold client_step in *. unfold PInv in P.
     destruct (w_ph w) as [|c qr|c j qn fut|c src qn qr|st| |] eqn:Eph;
-      try (exists pre; split; [exact B|unfold PInv; rewrite Eph; exact P]).
+      try (split; [exact B|unfold PInv; rewrite Eph; exact P]).
     - (* PhStart *)
       destruct P as [Hl Ho].
       assert (Hn0 : ncalls w = 0) by (unfold ncalls; rewrite Hl; reflexivity).
       assert (Hr0 : w_reps w = 0) by (pose proof (b_calls _ _ _ _ _ B); lia).
       destruct dest_cases as [Hd|[u Hd]]; rewrite Hd in *.
-      + exists pre. split.
+      + split.
         * cbn [w_todo w_seq w_reps call]. rewrite ncalls_call. eapply Base_calls; [|exact B]. lia.
         * unfold PInv. cbn [w_ph call w_out w_reps]. rewrite ncalls_call, Hn0, Hr0, Hd.
           repeat split; auto. apply qrep_nil. lia.
-      + exists pre. split.
+      + split.
         * cbn [w_todo w_seq w_reps call]. rewrite ncalls_call. eapply Base_calls; [|exact B]. lia.
         * unfold PInv. cbn [w_ph call w_out w_reps]. rewrite ncalls_call, Hn0, Hr0, Hd.
           repeat split; auto. apply qrep_nil. lia.
     - (* PhAddN *)
       destruct P as (Hd & Hc & Hn & Ho & Hq). subst c.
       destruct Hq as [(Hr & Hnr & _)|(Hr & stale & t & p & Hqr & Hnr)].
-      + rewrite (pmc_no_reply _ _ Hnr). exists pre. split; [exact B|].
+      + rewrite (pmc_no_reply _ _ Hnr). split; [exact B|].
         unfold PInv. cbn [w_ph set_ph w_out w_reps]. change (ncalls (set_ph w (PhAddN 1 []))) with (ncalls w).
         repeat split; auto. apply qrep_nil. exact Hr.
       + subst qr. destruct (pmc_has_reply 1 stale t p Hnr) as [q' Hp]. rewrite Hp.
-        destruct p; try (exists pre; split; [exact B|unfold PInv; cbn [w_ph set_ph w_out]; exact Ho]);
-          (exists pre; split;
+        destruct p; try (apply failed_pinv; [exact B|exact Ho|lia|rewrite Hd; cbn; lia]);
+          (split;
            [cbn [w_todo w_seq w_reps call]; rewrite ncalls_call; eapply Base_calls; [|exact B]; lia
            |unfold PInv; cbn [w_ph call w_out w_reps w_seq]; rewrite ncalls_call, Hn;
             split; [exact Hd|]; split; [reflexivity|]; split; [reflexivity|]; split; [reflexivity|];
@@ -777,7 +791,7 @@ Section Run.
       destruct Hcase as [(Hr & Hf & Hq)|(Hr & tr & p & qb & qa & Hf & Hqn & Hb & Ha & Hlk & Hown' & Htr)]; subst fut.
       + (* the lookup has not been answered *)
         destruct qn as [|[ta a] qn'].
-        * rewrite owner_poll_empty. exists pre. split; [exact B|].
+        * rewrite owner_poll_empty. split; [exact B|].
           unfold PInv. cbn [w_ph set_ph w_out w_reps w_seq].
           change (ncalls (set_ph w (PhOwner 2 JNone [] (Some [])))) with (ncalls w).
           repeat (split; [first [assumption|reflexivity]|]). left. repeat split; auto.
@@ -794,11 +808,11 @@ Section Run.
           assert (qb = [] /\ qa = []) as [-> ->] by (destruct qb; [split; [reflexivity|exact (eq_sym Hqn)]|discriminate]).
           cbn [nend fold_left] in Hown'.
           assert (Hndl : not_driver (lookup_result p) = true) by (rewrite <- Hown'; apply (b_nd _ _ _ _ _ B Hd)).
-          assert (G : WInv (resolved_world w (lookup_result p) [] false)).
+          assert (G : CInv1 (resolved_world w (lookup_result p) [] false) pre).
           { apply (resolved_inv w pre _ [] false B Hn Hd Ho Hndl); [constructor|exact I|constructor|].
             right. split; [exact Hr|exact Hown']. }
           destruct p; cbn [apply_queued];
-            try (exists pre; split; [exact B|unfold PInv; cbn [w_ph set_ph w_out]; exact Ho]);
+            try (apply failed_pinv; [exact B|exact Ho|lia|rewrite Hd; cbn; lia]);
             exact G.
         * rewrite owner_poll_both in *.
           destruct (good_head _ _ _ Hg) as (old & new & Hbody & Hnew & Hnd & Hg').
@@ -821,8 +835,8 @@ Section Run.
              assert (G : forall src0, src0 = lookup_result p ->
                       w_lost (resolved_world w (fst (apply_queued (JA (ILeft a) ta) src0)) qn'
                                              (snd (apply_queued (JA (ILeft a) ta) src0))) = false ->
-                      WInv (resolved_world w (fst (apply_queued (JA (ILeft a) ta) src0)) qn'
-                                           (snd (apply_queued (JA (ILeft a) ta) src0)))).
+                      CInv1 (resolved_world w (fst (apply_queued (JA (ILeft a) ta) src0)) qn'
+                                            (snd (apply_queued (JA (ILeft a) ta) src0))) pre).
              { intros src0 Hsrc Hl. cbn [apply_queued] in *. rewrite Hbody in *.
                destruct new as [o|].
                2: { unfold resolved_world, call in Hl. cbn [w_lost snd] in Hl.
@@ -832,7 +846,7 @@ Section Run.
                - inversion Hle; assumption.
                - right. split; [exact Hr|]. rewrite Hown'. apply nend_cons. exact Hnew. }
              destruct p;
-               try (exists pre; split; [exact B|unfold PInv; cbn [w_ph set_ph w_out]; exact Ho]).
+               try (apply failed_pinv; [exact B|exact Ho|lia|rewrite Hd; cbn; lia]).
              ++ specialize (G (Some o) eq_refl).
                 destruct (apply_queued (JA (ILeft a) ta) (Some o)) as [s' l'] eqn:Eq. cbn [fst snd] in G.
                 apply G. exact Hlost.
@@ -844,15 +858,15 @@ Section Run.
       destruct dest_cases as [Hd|[u Hd]]; rewrite Hd in P.
       + destruct P as (Hc & Hn & Hnd & Hr & H1 & q & Hq & Hg & Hso & Hle & Hcase). subst c qn.
         destruct Hr as [(Hr & Hnr & _)|(Hr & stale & t & p & Hqr & Hnr)].
-        * rewrite (pmc_no_reply _ _ Hnr). exists pre. split; [exact B|].
+        * rewrite (pmc_no_reply _ _ Hnr). split; [exact B|].
           unfold PInv. cbn [w_ph set_ph w_out w_reps w_seq].
           change (ncalls (set_ph w (PhAddS 3 src (Some q) []))) with (ncalls w). rewrite Hd.
           split; [exact Ho|]. repeat (split; [first [assumption|reflexivity]|]).
           split; [apply qrep_nil; exact Hr|]. split; [exact H1|]. exists q. repeat split; auto.
         * subst qr. destruct (pmc_has_reply 3 stale t p Hnr) as [q' Hp]. rewrite Hp.
           assert (Hown' : sp_owner (sp_run cf pre) = nend src q) by (destruct Hcase as [(E & _)|(_ & E)]; [lia|exact E]).
-          destruct p; try (exists pre; split; [exact B|unfold PInv; cbn [w_ph set_ph w_out]; exact Ho]);
-            (exists pre; split; [exact B|];
+          destruct p; try (apply failed_pinv; [exact B|exact Ho|lia|rewrite Hd; cbn; lia]);
+            (split; [exact B|];
              unfold PInv; cbn [w_ph w_out w_reps w_seq w_start];
              match goal with |- context [ncalls ?x] => change (ncalls x) with (ncalls w) end;
              rewrite Hd, Hn; split; [exact Hr|]; split; [reflexivity|];
@@ -864,13 +878,13 @@ Section Run.
              rewrite Ho; cbn [rev app]; symmetry; unfold spec_pre; apply spec_from_early; rewrite (b_len _ _ _ _ _ B); lia).
       + destruct P as (Hc & Hn & Hq & Hs & Hr). subst c qn src.
         destruct Hr as [(Hr & Hnr & _)|(Hr & stale & t & p & Hqr & Hnr)].
-        * rewrite (pmc_no_reply _ _ Hnr). exists pre. split; [exact B|].
+        * rewrite (pmc_no_reply _ _ Hnr). split; [exact B|].
           unfold PInv. cbn [w_ph set_ph w_out w_reps w_seq].
           change (ncalls (set_ph w (PhAddS 1 (Some u) None []))) with (ncalls w). rewrite Hd.
           repeat split; auto. apply qrep_nil. exact Hr.
         * subst qr. destruct (pmc_has_reply 1 stale t p Hnr) as [q' Hp]. rewrite Hp.
-          destruct p; try (exists pre; split; [exact B|unfold PInv; cbn [w_ph set_ph w_out]; exact Ho]);
-            (exists pre; split; [exact B|];
+          destruct p; try (apply failed_pinv; [exact B|exact Ho|lia|rewrite Hd; cbn; lia]);
+            (split; [exact B|];
              unfold PInv; cbn [w_ph w_out w_reps w_seq w_start];
              match goal with |- context [ncalls ?x] => change (ncalls x) with (ncalls w) end;
              rewrite Hd, Hn; split; [exact Hr|]; split; [reflexivity|];
@@ -880,6 +894,9 @@ Section Run.
              split; [|symmetry; apply (sp_owner_unique cf u pre Hd)];
              rewrite Ho; cbn [rev app]; symmetry; unfold spec_pre; apply spec_from_early; rewrite (b_len _ _ _ _ _ B); lia).
   Qed.
+
+  Lemma client_inv : forall w, WInv w -> w_lost (client_step cf w) = false -> WInv (client_step cf w).
+  Proof. intros w [pre H] Hl. exists pre. apply client_pinv; assumption. Qed.
 
   (* ---- the consumer polls the stream once *)
   Lemma poll_inv : forall w, WInv w -> WInv (consumer_poll w).
@@ -962,8 +979,8 @@ Section Run.
     - destruct P as (_ & _ & _ & _ & Ho & _). rewrite Ho. cbn [rev app]. eauto.
     - destruct P as (Ho & _). rewrite Ho. cbn [rev app]. eauto.
     - destruct P as (_ & _ & _ & _ & _ & Hy & _). rewrite <- Hy, <- app_assoc. eauto.
-    - rewrite P. cbn [rev app]. eauto.
-    - rewrite P. cbn [rev app]. eauto.
+    - destruct P as (Ho & _). rewrite Ho. cbn [rev app]. eauto.
+    - contradiction.
   Qed.
 
   Lemma inv_complete : forall w, WInv w -> w_todo w = [] -> drained w ->
@@ -976,6 +993,19 @@ Section Run.
     rewrite Hp in Ep. inversion Ep; subst r st2. destruct Hps as (_ & H1 & _).
     rewrite H1 in Hy. cbn [map] in Hy. rewrite app_nil_r in Hy.
     rewrite Hy. pose proof (b_split _ _ _ _ _ B) as Hs. rewrite Ht, app_nil_r in Hs. subst pre. reflexivity.
+  Qed.
+  Lemma pinv_ncalls : forall w pre, PInv w pre -> ncalls w <= creation (c_dest cf).
+  Proof.
+    intros w pre P. unfold PInv in P. destruct (w_ph w).
+    - destruct P as [Hl _]. unfold ncalls. rewrite Hl. cbn. destruct (c_dest cf); cbn; lia.
+    - destruct P as (Hd & _ & Hn & _). rewrite Hd, Hn. cbn. lia.
+    - destruct P as (Hd & _ & Hn & _). rewrite Hd, Hn. cbn. lia.
+    - destruct P as (_ & P). destruct (c_dest cf).
+      + destruct P as (_ & Hn & _). rewrite Hn. cbn. lia.
+      + destruct P as (_ & Hn & _). rewrite Hn. cbn. lia.
+    - destruct P as (_ & Hn & _). rewrite Hn. lia.
+    - destruct P as (_ & _ & Hn). exact Hn.
+    - contradiction.
   Qed.
 End Run.
 
@@ -1028,4 +1058,22 @@ Proof.
   pose proof (b_split _ _ _ _ _ _ _ B) as Hs. pose proof (b_len _ _ _ _ _ _ _ B) as Hlen.
   rewrite Hs, <- Hlen, Nnat.Nat2N.id, firstn_app, firstn_all, Nat.sub_diag. cbn [firstn]. rewrite app_nil_r.
   reflexivity.
+Qed.
+
+(* `.expect("`NameOwnerChanged` signal has no args")` in SignalStream::new is never reached *)
+Theorem never_panics : forall cf h sched,
+  bus_history cf h = true -> ~ Known_C32 cf h sched -> w_ph (run cf h sched) <> PhPanic.
+Proof.
+  intros cf h sched Hb Hk.
+  assert (Hl : w_lost (run cf h sched) = false)
+    by (destruct (w_lost (run cf h sched)) eqn:E; [exfalso; apply Hk; left; exact E|reflexivity]).
+  assert (Hf : forgeable cf h = false) by (destruct (forgeable cf h) eqn:E; [exfalso; apply Hk; right; exact E|reflexivity]).
+  unfold bus_history in Hb. apply andb_true_iff in Hb. destruct Hb as [Hst Hb].
+  assert (Hown : c_dest cf = DWell -> owners_ok_from 0 h = true).
+  { intro Hd. rewrite Hd in Hb. apply andb_true_iff in Hb. tauto. }
+  assert (Hcon : c_dest cf = DWell -> consistent_from 0 None h = true).
+  { intro Hd. rewrite Hd in Hb. apply andb_true_iff in Hb. tauto. }
+  assert (Hi : WInv cf h (run cf h sched)).
+  { apply (run_inv cf h Hst Hf Hown Hcon); [apply init_inv; assumption|exact Hl]. }
+  destruct Hi as (pre & _ & P). unfold PInv in P. intro E. rewrite E in P. exact P.
 Qed.
